@@ -54,9 +54,30 @@ func fresh(x any) bool                           { return true }
 func slotOption(o *PrettyPrintOptions) {}
 
 //@ func slotOption(o)
-//@   props C14 C06
+//@   props C14 C06 C11
 //@   abstract
+//@   requires [options] o != nil
 //@   modifies o.IndentString, o.WriteSemicolons
+
+// The three option constructors: each callback touches only its own field of the options it is handed, and none of them
+// can fail -- for any argument (C11: "compiles in every configuration without panicking").
+//@ func WithSpaces$1(opts)
+//@   props C11 C06 C14
+//@   requires [options] opts != nil
+//@   modifies opts.IndentString
+//@   ensures [semi.kept@C06] opts.WriteSemicolons == old(opts.WriteSemicolons)
+
+//@ func WithTabs$1(opts)
+//@   props C11 C06 C14
+//@   requires [options] opts != nil
+//@   modifies opts.IndentString
+//@   ensures [tabs@C06] opts.IndentString == "\t" && opts.WriteSemicolons == old(opts.WriteSemicolons)
+
+//@ func WithSemi$1(opts)
+//@   props C11 C06 C14
+//@   requires [options] opts != nil
+//@   modifies opts.WriteSemicolons
+//@   ensures [semi@C06] opts.WriteSemicolons == value && opts.IndentString == old(opts.IndentString)
 
 //@ func (c *Compiler) WithPrettyPrint(opts)
 //@   props C14 C06 C11
